@@ -81,12 +81,22 @@ pub fn digest(args: &Args) {
             if let Some(k0) = reference.first().cloned() {
                 t2.insert(k0, toml::Value::Integer(2)); // existing key: keeps its place
             }
+            // bulk insertion: an existing key takes the new value and keeps its place, a new key is appended
+            if let Some(k0) = reference.first().cloned() {
+                t2.extend([(k0, toml::Value::Integer(7)), ("~new2".to_string(), toml::Value::Integer(8))]);
+                reference.push("~new2".to_string());
+            }
             let after: Vec<String> = t2.keys().cloned().collect();
             let b = classify(&after, &reference);
-            format!("{a}/{b}")
+            // the content after the history does not depend on the configuration
+            format!("{a}/{b}#{}", h(&sorted(&proj::toml_table(&t2))))
         }))
         .unwrap_or("panic".to_string());
-        writeln!(out, "{}", json!({"id": r["id"], "order_law": order_law, "d_edit": h(&edit), "d_parse": d_parse, "d_toml_sorted": h(&toml_r.0), "d_toml_order": h(&toml_r.1),
+        let (order_law, hist_content) = match order_law.split_once('#') {
+            Some((a, b)) => (a.to_string(), b.to_string()),
+            None => (order_law.clone(), "none".to_string()),
+        };
+        writeln!(out, "{}", json!({"id": r["id"], "order_law": order_law, "d_hist_content": hist_content, "d_edit": h(&edit), "d_parse": d_parse, "d_toml_sorted": h(&toml_r.0), "d_toml_order": h(&toml_r.1),
                                    "accepted": edit["res"] == "ok"})).unwrap();
     }
 }
